@@ -51,6 +51,15 @@ func isNamed(t types.Type, pkg, name string) bool {
 }
 
 func DiscoverRoles(p *Prog) *Roles {
+	if p.roles != nil {
+		return p.roles
+	}
+	ro := discoverRoles(p)
+	p.roles = ro
+	return ro
+}
+
+func discoverRoles(p *Prog) *Roles {
 	ro := &Roles{p: p, T: NewTerms(p), CG: BuildCallGraph(p), ConnRawIdx: -1, ConnBufIdx: -1}
 	ro.T.FieldWrites = fieldWriteSummaries(p, ro.CG, ro.T)
 	// ctxio.Conn: the named struct in ctxio with a net.Conn field and a *bufio.Reader field
